@@ -2357,8 +2357,35 @@ def m_slice_split(ex, a, m):
     if op == 'windows': return IterV(iter([Ptr(Cell(SliceRef(items[i:i + n])), 'ref') for i in range(0, max(0, len(items) - n + 1))]))
     raise Unsupported('slice::' + op)
 
-@model_rx(r'^serde_json::Deserializer::from_str$|^serde_json::Deserializer::<.*>::from_str$|^serde_json::de::Deserializer::from_str$')
+@model_rx(r'^(?:serde_json::)?(?:de::)?Deserializer::from_str$|^serde_json::Deserializer::<.*>::from_str$')
 def m_sj_deserializer_from_str(ex, a, m): return JsonStreamDeV(as_str(a[0]).chars)
+class JsonStreamIterV:
+    """serde_json::StreamDeserializer (model): a sequence of whitespace-separated values read from one text"""
+    __slots__ = ('de', 'failed')
+    def __init__(s, de): s.de = de; s.failed = False
+@model_rx(r'^(?:serde_json::)?(?:de::)?Deserializer::into_iter$')
+def m_sj_into_iter(ex, a, m): return JsonStreamIterV(a[0].cell.v if isinstance(a[0], Ptr) else a[0])
+@model_override(r'^<(?:serde_json::)?(?:de::)?StreamDeserializer<.*> as Iterator>::next$')
+def m_sj_stream_next(ex, a, m):
+    from . import jsonmodel
+    it = a[0].cell.v if isinstance(a[0], Ptr) else a[0]
+    if not isinstance(it, JsonStreamIterV): return NotImplemented
+    d = it.de
+    r = jsonmodel.Reader(ex, d.chars); r.i = d.i; r.skip_ws(); d.i = r.i
+    if it.failed or r.eof(): return none()
+    first = d.chars[d.i]
+    if not isinstance(first, str): raise Unsupported('StreamDeserializer over a symbolic first character')
+    f = ex.prog.by_key.get(('Deserialize', 'Variable', 'deserialize'))
+    if f is None: raise Unsupported('StreamDeserializer item type other than Variable')
+    res = ex.run_fn(f, [Ptr(Cell(d))])
+    if res.variant != 'Ok': it.failed = True; return some(res)
+    # a value that is not self-delimiting (number, true, false, null) must be followed by white space or the end of the text
+    if first not in '[{"' and d.i < len(d.chars):
+        nx = d.chars[d.i]
+        if not isinstance(nx, str): raise Unsupported('StreamDeserializer: symbolic character after a scalar')
+        if nx not in ' \t\n\r':
+            it.failed = True; return some(err(Agg('struct', 'SerdeJsonError', None, [Cell(rstr('trailing characters'))])))
+    return some(res)
 @model_rx(r'^serde_json::(?:de::)?Deserializer::(?:<.*>::)?end$')
 def m_sj_deserializer_end(ex, a, m):
     from . import jsonmodel
